@@ -794,6 +794,9 @@ Loop:
 }
 
 func hasPhysicalRepresentation(s *descriptor.Signal) bool {
+	if s.Length == 1 {
+		return false // bools have no physical representation
+	}
 	hasScale := s.Scale != 0 && s.Scale != 1
 	hasOffset := s.Offset != 0
 	hasRange := s.Min != 0 || s.Max != 0
